@@ -230,6 +230,21 @@ EXTRA8 = {
     "C20": ("R-GUARD cut before marking in LinkSource::materialize", "Also decides that adjacency alone chooses between cutting and marking whole."),
 }
 
+EXTRA9 = {
+    "C01": ("C08.d diff selection in the state-vector mechanism; C09.json / C09.varint in block-wire", "Also decides the per-client selection of update diffs and the var-int bit layout under this property."),
+    "C02": ("C08.a v1/v2 twins of alt.rs in the merge mechanism", "Also decides that the v2 merge used by the full-state export equals its v1 twin."),
+    "C03": ("R-PROV type-api delegation table (38 delegations) and Map::try_update truth table; R-PAIR balanced formatting marks", "Also decides that the type methods hand on their own arguments and that opening marks are always closed."),
+    "C05": ("type-api mechanism", "Also decides the arguments Map::insert / insert_attribute / remove hand to their workers."),
+    "C06": ("C08.d in state-vector; var-int layout in block-wire", "Also decides the var-int bit layout."),
+    "C09": ("R-OWN sole writer of the v1 JSON text; R-TABLE var-int continuation / mask / shift agreement", "Also decides JSON text ownership and the var-int bit layout."),
+    "C12": ("R-PROV delegation table of the manager's thin methods", "Also decides direction / stack / origin of the thin undo methods."),
+    "C13": ("R-PROV options of a destroyed sub-document", "Also decides that a replaced sub-document keeps its whole options value."),
+    "C15": ("R-PROV delegation table of the collector's entry points", "Also decides what collect / collect_all / mark / mark_all hand on."),
+    "C17": ("type-api mechanism", "Also decides the arguments of the read methods get / len."),
+    "C18": ("R-PROV delegation table of the thin Awareness methods", "Also decides which entry the local-state methods address."),
+    "C20": ("R-GUARD decision tables of join_linked_range", "Also decides which quotations a newly integrated item joins."),
+}
+
 PENDING = {
 }
 
@@ -238,7 +253,7 @@ def main():
     checks = []
     for pid in sorted(CHECKS):
         tech, text, ref = CHECKS[pid]
-        for ex in (EXTRA, EXTRA2, EXTRA3, EXTRA4, EXTRA5, EXTRA6, EXTRA7, EXTRA8):
+        for ex in (EXTRA, EXTRA2, EXTRA3, EXTRA4, EXTRA5, EXTRA6, EXTRA7, EXTRA8, EXTRA9):
             if pid in ex:
                 tech = tech + "; " + ex[pid][0]
                 text = text + " " + ex[pid][1]
